@@ -235,6 +235,41 @@ func c07Wide(c *mon.Ctx, idx int) {
 			expectT(fmt.Sprintf(`any l as %s { "/%s/%s" == %d }`, id, id, id, map[string]int{"a": 1, "b": 2}[v]), datum, "long-identifier-twins/binding-pointer")
 		}
 	}
+	// index spellings with leading zeros, in every spelling of the path, on
+	// generic and on typed lists: whatever such an index means, it means the
+	// same in all three spellings
+	{
+		xs := make([]interface{}, 12)
+		txs := make([]int, 12)
+		for i := range xs {
+			xs[i], txs[i] = i, i
+		}
+		datum := map[string]interface{}{"doc": map[string]interface{}{"xs": xs, "txs": txs, "m": map[string]interface{}{"010": 8, "08": 10}}}
+		for _, list := range []string{"xs", "txs", "m"} {
+			for _, ix := range []string{"010", "08", "009", "011", "007", "00", "0", "10", "11", "012", "0011"} {
+				for _, v := range []int{8, 9, 10, 11} {
+					texts := []string{fmt.Sprintf(`doc.%s.%s == %d`, list, ix, v), fmt.Sprintf(`doc["%s"]["%s"] == %d`, list, ix, v), fmt.Sprintf(`"/doc/%s/%s" == %d`, list, ix, v), fmt.Sprintf("doc.%s[`%s`] == %d", list, ix, v)}
+					var outs []string
+					for _, text := range texts {
+						ev, err, pan, _ := createEval(text)
+						c.Evals(1)
+						if pan != "" || err != nil {
+							outs = append(outs, "rejected")
+							continue
+						}
+						outs = append(outs, evaluate(ev, datum).Class3())
+					}
+					for i := 1; i < len(outs); i++ {
+						if outs[i] != outs[0] {
+							c.Violation(fmt.Sprintf("C07 outcome-differs zero-prefixed-index dotted=%s other=%s", outs[0], outs[i]), "a zero-prefixed index selects differently in different spellings of the same path",
+								map[string]any{"spellings": texts, "outcomes": outs, "list": list})
+							break
+						}
+					}
+				}
+			}
+		}
+	}
 	// wide structs
 	for _, n := range []int{255, 256, 257, 300, 1030} {
 		v, ok := c07WideStruct[n]
